@@ -48,10 +48,17 @@ var respTypeOf = map[string]uint16{"HS": tsgu.TypeHandshakeResp, "TC": tsgu.Type
 
 // c16Policy: one execution HS, TC, TA under the given policy; checks the tunnel-auth response.
 func c16Policy(fi int, timeout int, kind string, rep *Report) (string, string) {
+	return c16PolicyCaps(fi, timeout, kind, 0x3F, rep)
+}
+
+// c16PolicyCaps: the policy the gateway announces is its configuration, whatever capability word the
+// client sent in its TUNNEL_CREATE.
+func c16PolicyCaps(fi int, timeout int, kind string, caps uint32, rep *Report) (string, string) {
 	cfg := c01Cfg(true, false, kind)
 	cfg.Gw.Redirect = flagsOf(fi)
 	cfg.Gw.IdleTimeout = timeout
-	segs := []Seg{{Bytes: tsgu.Handshake(1, 0, 0, tsgu.ExtAuthPAA)}, {Bytes: tsgu.TunnelCreate("ok|"+hostA+":3389|10.0.0.1|alice", true)}, {Bytes: tsgu.TunnelAuth("pc")}}
+	ck := tsgu.UTF16Z("ok|" + hostA + ":3389|10.0.0.1|alice")
+	segs := []Seg{{Bytes: tsgu.Handshake(1, 0, 0, tsgu.ExtAuthPAA)}, {Bytes: tsgu.TunnelCreateRaw(caps, 1, len(ck), ck, true)}, {Bytes: tsgu.TunnelAuth("pc")}}
 	res := RunSeq(cfg, segs)
 	rep.add("executions", 1)
 	rep.add("transitions", int64(res.StepsRun))
@@ -103,10 +110,18 @@ func c16(env *Env, rep *Report) {
 		g := func(k string) int { f, _ := rp[k].(float64); return int(f) }
 		kind, _ := rp["kind"].(string)
 		if _, ok := rp["flags"]; ok {
-			v, d := c16Policy(g("flags"), g("timeout"), kind, rep)
+			caps := uint32(0x3F)
+			if f, ok := rp["caps"].(float64); ok {
+				caps = uint32(f)
+			}
+			v, d := c16PolicyCaps(g("flags"), g("timeout"), kind, caps, rep)
 			fmt.Println("verdict:", v, d)
 			if v != "" {
-				rep.violate("C16/"+v, d, rp)
+				sig := "C16/" + v
+				if _, ok := rp["caps"]; ok {
+					sig += "/client-capabilities"
+				}
+				rep.violate(sig, d, rp)
 			}
 		} else {
 			b := func(k string) bool { v, _ := rp[k].(bool); return v }
@@ -151,6 +166,31 @@ func c16(env *Env, rep *Report) {
 		for _, t := range []int{-1, 0, 45} {
 			pol(fi, t, "ws")
 			pol(fi, t, "legacy")
+		}
+	}
+	// the client's capability word does not change what is announced: every single bit, none, all, and the
+	// combinations a Windows client sends
+	capWords := []uint32{0, 0x3F, 0x7F, 0x18, 0x3D, 0xFFFFFFFF}
+	for b := 0; b < 32; b++ {
+		capWords = append(capWords, 1<<uint(b))
+	}
+	for _, cw := range capWords {
+		for _, fi := range []int{0, 31, 127, 21} {
+			for _, t := range []int{0, 30} {
+				for _, kind := range []string{"proc", "ws", "legacy"} {
+					n++
+					if !env.mine(n) {
+						continue
+					}
+					distinct++
+					v, d := c16PolicyCaps(fi, t, kind, cw, rep)
+					rep.outcome(fmt.Sprintf("policy caps flags=%d verdict=%s", fi, v))
+					if v != "" {
+						rep.violate("C16/"+v+"/client-capabilities", fmt.Sprintf("client capability word %#x flags=%+v timeout=%d transport=%s: %s", cw, flagsOf(fi), t, kind, d),
+							map[string]any{"engine": "enum", "flags": fi, "timeout": t, "kind": kind, "caps": float64(cw)})
+					}
+				}
+			}
 		}
 	}
 	combos := []int{0, 31}
@@ -198,11 +238,14 @@ func c16(env *Env, rep *Report) {
 	}
 	// (c) ordering under schedules: a host that talks as soon as it is connected must not get its data
 	// to the client ahead of the channel response (the packet answering a request carries the response type)
-	for _, kind := range []string{"ws", "legacy"} {
+	for _, kind := range []string{"ws", "legacy", "closing-ws", "closing-legacy"} {
 		sc := c16OrderScenario(kind)
 		ob := 2
 		if env.thorough() {
 			ob = 3
+		}
+		if sc.Deviation {
+			ob++ // the closing scenarios need the host paused between two chunks and the two packet builders overlapped
 		}
 		exploreConc(env, rep, sc, ob, nil, c16OrderCheck(sc))
 	}
@@ -277,6 +320,12 @@ func c16Outcome(alpha []sym, token, sc bool, kind string, hist []int, rep *Repor
 }
 
 func c16OrderScenario(kind string) ConcScenario {
+	if strings.HasPrefix(kind, "closing-") {
+		// the client closes the channel while the host keeps writing: two goroutines build packets at once;
+		// every packet stays well-formed and the close request is answered by a close response
+		return ConcScenario{Name: "talkative-host-" + kind, Deviation: true, Plans: []TunnelPlan{{Kind: strings.TrimPrefix(kind, "closing-"), ConnID: "A", User: "ua", IP: "10.0.0.1", Host: "ha.example:3389",
+			Script: []string{"data:hello", "recvbytes:13", "ka", "close", "drain"}, Chunks: [][]byte{[]byte("BANNER-LINE-1"), []byte("BANNER-LINE-2"), []byte("BANNER-LINE-3")}}}}
+	}
 	return ConcScenario{Name: "talkative-host-" + kind, Plans: []TunnelPlan{{Kind: kind, ConnID: "A", User: "ua", IP: "10.0.0.1", Host: "ha.example:3389",
 		Script: []string{"recvbytes:13", "close", "drain"}, Chunks: [][]byte{[]byte("BANNER-LINE-1")}}}}
 }
@@ -290,6 +339,18 @@ func c16OrderCheck(sc ConcScenario) func(res *ConcResult, races []RaceReport) (s
 		}
 		for _, p := range res.X.Panics() {
 			v = append(v, vsched.Violation{Sig: "C16/panic/" + sc.Name, Detail: p.Value})
+		}
+		if t.StreamErr != "" {
+			v = append(v, vsched.Violation{Sig: "C16/malformed-packet-to-client/" + sc.Name, Detail: t.StreamErr})
+		}
+		if strings.Contains(sc.Name, "closing-") && t.SetupFailed == "" {
+			last := ""
+			if len(t.Resps) > 0 {
+				last = t.Resps[len(t.Resps)-1]
+			}
+			if last != "0x11/0x0" {
+				v = append(v, vsched.Violation{Sig: "C16/close-request-not-answered-by-close-response/" + sc.Name, Detail: fmt.Sprintf("responses %v", t.Resps)})
+			}
 		}
 		return fmt.Sprintf("setup=%q resps=%v data=%q", t.SetupFailed, t.Resps, t.ClientData), v
 	}
